@@ -14,7 +14,7 @@ from fractions import Fraction
 from typing import Any, Dict, List, Optional, Tuple
 
 from .loader import AnalysisError, FuncInfo, Program, norm
-from .ratnf import Rat, p_atom, p_const
+from .ratnf import Rat, p_atom, p_const, sign_under
 
 
 def sym(name: str) -> Rat:
@@ -111,6 +111,7 @@ class TermAlg:
         self.stubs = stubs or {}
         self.depth = 0
         self.fstack: List[FuncInfo] = []
+        self.signs: Dict[Any, int] = {}  # sign assumptions on symbols: ("sym", name) -> +1 / -1
 
     # ------------------------------------------------------------ builders
     def term(self, keys: List[Key], prefix: str, const_name: Optional[str] = None) -> Rec:
@@ -573,6 +574,9 @@ class TermAlg:
                     return c > 0
                 if isinstance(op, ast.GtE):
                     return c >= 0
+            sg = sign_under(l - r, self.signs) if self.signs else None
+            if sg is not None:
+                return {ast.Lt: sg < 0, ast.LtE: sg <= 0, ast.Gt: sg > 0, ast.GtE: sg >= 0}[type(op)]
             raise Undecidable("sign of %s is not determined (%s)" % ((l - r).show(), norm(e)))
         raise AnalysisError("comparison %s outside the kernel fragment" % norm(e))
 
@@ -582,6 +586,26 @@ class TermAlg:
         if isinstance(a, tuple) and isinstance(b, tuple):
             return a == b
         return a is b
+
+    def struct_eq(self, a, b) -> bool:
+        """Structural equality of symbolic values (what == means for terms: same keys, identical coefficients)."""
+        if a is b:
+            return True
+        if isinstance(a, Rat) and isinstance(b, Rat):
+            return a.equals(b)
+        if isinstance(a, Key) and isinstance(b, Key):
+            return a == b
+        if isinstance(a, Rec) and isinstance(b, Rec):
+            return a.cls == b.cls and set(a.f) == set(b.f) and all(self.struct_eq(a.f[k], b.f[k]) for k in a.f)
+        if isinstance(a, DictV) and isinstance(b, DictV):
+            return set(a.d) == set(b.d) and all(self.struct_eq(a.d[k], b.d[k]) for k in a.d)
+        if isinstance(a, (ListV, TupV)) and type(a) is type(b):
+            return len(a.items) == len(b.items) and all(self.struct_eq(x, y) for x, y in zip(a.items, b.items))
+        if isinstance(a, NoneT) and isinstance(b, NoneT):
+            return True
+        if isinstance(a, (tuple, bool)) and isinstance(b, (tuple, bool)):
+            return a == b
+        return False
 
     def x_IfExp(self, e, env):
         return self.eval(e.body if self.truth(self.eval(e.test, env), e.test) else e.orelse, env)
@@ -654,6 +678,8 @@ class TermAlg:
             return self.construct(f.name, pos, kw)
         if isinstance(f, tuple):
             t = f[0]
+            if t == "typeof" and isinstance(f[1], Rec):
+                return self.construct(f[1].cls, pos, kw)
             if t == "bound":
                 fi = f[2]
                 if fi.kind == "static":
@@ -704,6 +730,10 @@ class TermAlg:
                 if name == "remove":
                     for i_, x_ in enumerate(l.items):
                         if x_ is pos[0]:
+                            del l.items[i_]
+                            return NONE
+                    for i_, x_ in enumerate(l.items):  # list.remove compares with ==
+                        if self.struct_eq(x_, pos[0]):
                             del l.items[i_]
                             return NONE
                     raise Raised("ValueError")
